@@ -45,11 +45,16 @@ def cases(tier, rng):
     for j in range(8 if tier == 'quick' else 200):
         yield {'k': 'multi', 'j': j}
 
-def network(K, order=None):
-    """order: the sequence in which the 16 rounds' tables are generated (a free choice of the caller)"""
+def network(K, order=None, keyobj=None):
+    """order: the sequence in which the 16 rounds' tables are generated (a free choice of the caller);
+    keyobj: a Bits object the caller keeps and refills with each new key instead of creating a new one"""
     from crysp.bits import Bits
     from crysp.wb import table_rKT, table_M1, table_M2, table_M3, WhiteDES
-    bK = Bits(K, 64)
+    if keyobj is not None:
+        keyobj.ival = Bits(K, 64).ival
+        bK = keyobj
+    else:
+        bK = Bits(K, 64)
     tabs = {}
     for r in (order if order is not None else range(16)):
         tabs[r] = table_rKT(r, bK)[1]
@@ -109,7 +114,9 @@ def run(case, ctx, rng):
         keys = [K, flip(K, 0x80), flip(K, 0x01), flip(K, 0x10), rng.randbytes(8)]
         rng.shuffle(keys)
         ctx.cls(('multi', case['j'] % 4))
-        nets = [call(network, kk) for kk in keys]
+        from crysp.bits import Bits
+        shared = Bits(bytes(8), 64) if case['j'] % 2 else None          # every other case: one key object refilled for each generation
+        nets = [call(network, kk, None, shared) for kk in keys]
         Bs = [rng.randbytes(8) for _ in range(3)] + [bytes(8)]
         order = [(i, B) for i in range(len(keys)) for B in Bs]
         rng.shuffle(order)
@@ -117,6 +124,14 @@ def run(case, ctx, rng):
             if is_exc(nets[i]):
                 ctx.eq('multi:wb==FIPS46-3', nets[i], rdes.enc(keys[i], B), K=keys[i]); continue
             ctx.eq('multi:wb==FIPS46-3', call(nets[i][4].enc, B), rdes.enc(keys[i], B), K=keys[i], B=B, keys=keys)
+        # the comparison cipher, too, is one object re-keyed for each key (rebinding K, or refilling it in place)
+        E = DES(keys[0])
+        for t, kk in enumerate(keys):
+            if t % 2: E.K = Bits(kk, 64)
+            else: E.K.ival = Bits(kk, 64).ival
+            if not is_exc(nets[t]):
+                ctx.eq('wb==crysp.des', call(nets[t][4].enc, Bs[0]), call(E.enc, Bs[0]), K=kk, B=Bs[0], des_object='re-keyed through K (%s)' % ('rebound' if t % 2 else 'refilled in place'))
+                ctx.eq('multi:wb==FIPS46-3', call(E.dec, rdes.enc(kk, Bs[1])), Bs[1], K=kk, des_object='re-keyed through K: dec')
         ctx.notes['programs'] += len(keys)
         if not is_exc(nets[0]) and not is_exc(nets[1]):
             W = nets[0][4]
